@@ -128,13 +128,21 @@ func gen(t *rapid.T) Case {
 		c.AsMulti = nlr > 1 || rapid.Bool().Draw(t, "rasterasml")
 		return c
 	}
-	if rapid.IntRange(0, 39).Draw(t, "blockexit") == 9 {
+	if rapid.IntRange(0, 24).Draw(t, "blockexit") == 9 {
 		// a long x-monotone line that wanders over P for exactly K segments and leaves P's bounding box for good at
 		// vertex K, K next to a power of two (the sizes of blocks that code processes lines in)
 		c.Place = "exit_at_block"
-		m := rapid.SampledFrom([]int{4, 5, 6, 7, 8, 8, 9, 10, 10, 11, 12, 12, 13}).Draw(t, "blockexp")
+		m := rapid.SampledFrom([]int{4, 5, 6, 7, 8, 8, 9, 10, 10, 11, 12, 12, 12, 13}).Draw(t, "blockexp")
 		K := 1<<uint(m) + rapid.IntRange(-1, 1).Draw(t, "blockoff")
 		tail := rapid.IntRange(1, 40).Draw(t, "blocktail")
+		if rapid.IntRange(0, 2).Draw(t, "longtail") == 1 {
+			// as many vertices outside as over P (or twice as many), so that the exit also sits at a joint of code that cuts
+			// the whole line into equal blocks
+			tail = K*rapid.IntRange(1, 2).Draw(t, "tailblocks") + rapid.IntRange(-1, 1).Draw(t, "tailoff")
+			if tail < 1 {
+				tail = 1
+			}
+		}
 		x0, y0, x1, y1 := bb(c.P.Flatten())
 		w, h := x1-x0, y1-y0
 		var l []vkit.P2
